@@ -17,7 +17,7 @@ from hypothesis import HealthCheck, Phase, given, settings
 
 
 class Verdict:
-    __slots__ = ("ok", "msg", "nontrivial", "tags", "excluded")
+    __slots__ = ("ok", "msg", "nontrivial", "tags", "excluded", "obs")
 
     def __init__(self, ok=True, msg="", nontrivial=False, tags=(), excluded=None):
         self.ok = ok
@@ -55,6 +55,24 @@ def engine(fn, *a, **kw):
         if any("/nucs/" in fs.filename or "/numba/" in fs.filename or "/numpy/" in fs.filename for fs in traceback.extract_tb(e.__traceback__)):
             raise EngineError(e) from e
         raise
+
+
+def engine_direct(fn, *a):
+    """
+    A bare call of a nucs function from the harness (nothing of the harness runs inside it): every exception is the
+    engine's.  Needed in compiled mode, where an exception raised by jitted code carries no nucs frame.
+    """
+    try:
+        return fn(*a)
+    except BudgetExceeded:
+        raise
+    except EngineError:
+        raise
+    except Exception as e:  # noqa: BLE001
+        err = EngineError(e)
+        if err.bucket.endswith("@?"):
+            err.bucket = "%s@%s" % (type(e).__name__, getattr(fn, "__name__", "?"))
+        raise err from e
 
 
 class BudgetExceeded(Exception):
